@@ -932,6 +932,16 @@ Example ex_hist_result :
   fst (snd (do_recover crc32c st)) = [ex_a; ex_c; ex_b].
 Proof. vm_compute. reflexivity. Qed.
 
+(* the bookkeeping on that history: four records in the logical log, three of
+   them durable, the machine is down — so the hypotheses of recover_prefix /
+   recover_clean / cycles_no_loss are met with a non-trivial must_survive *)
+Example ex_hist_ghost :
+  let sg := run crc32c ex_hist in
+  up (fst sg) = false /\ logl (snd sg) = [ex_a; ex_c; ex_b; ex_b] /\
+  must_survive (fst sg) (snd sg) = [ex_a; ex_c; ex_b] /\
+  map fst (disk_of (fst sg)) = [0].
+Proof. vm_compute. repeat split; reflexivity. Qed.
+
 (* -- defect repaired by 9b02e11: a tail cut exactly after an 8-byte header read
       as a clean EOF, so nothing was truncated; the next record, appended and
       SYNCED, was glued to the dangling header and destroyed by the following
